@@ -162,31 +162,31 @@ Definition grad_zero (g : option gradv) : option gradv :=
 Definition grad_div (g : option gradv) (d : T) : option gradv :=
   match g with None => None | Some v => Some (mkgrad (g_raw v) (g_items v) (g_noise v) (g_divs v ++ [d])) end.
 (* torch.zeros(reference.shape, ...): dereferences p.summed_grad *)
-Definition deref_zeros (reference : option sumv) (s : ost) : result (ost * noise) :=
-  match reference with None => Err AttributeError | Some _ => Ok (s, []) end.
+Definition deref_zeros (reference : option sumv) (s : ost) : sres ost noise :=
+  match reference with None => SErr s AttributeError | Some _ => SOk s [] end.
 Definition shape_of_pair (p : Z * Z) : shape := if (Z.eqb (fst p) 1 && Z.eqb (snd p) 1)%bool then Shape11 else ShapeOther.
 (* torch.normal(mean=0, std, size, generator): one fresh position of the generator stream *)
-Definition draw_normal (s : ost) (std : T) (size : shape) : result (ost * noise) :=
+Definition draw_normal (s : ost) (std : T) (size : shape) : sres ost noise :=
   let pos := o_noise_pos s in
   let s := upd_noise_pos s (pos + 1)%Z in
-  Ok (emit s (match size with ShapeRef => ENoise std pos | _ => EDiscard std pos end), [(pos, std, 1%Z)]).
+  SOk (emit s (match size with ShapeRef => ENoise std pos | _ => EDiscard std pos end)) [(pos, std, 1%Z)].
 Definition noise_div (n : noise) (d : Z) : noise := map (fun '(p, sd, k) => (p, sd, (k * d)%Z)) n.
 (* (p.summed_grad + noise).view_as(p) *)
 Definition grad_of_sum (o : option sumv) (n : noise) : option gradv :=
   match o with Some v => Some (mkgrad [] (s_items v) n []) | None => None end.
-Definition inner_zero_grad (s : ost) (set_to_none : bool) : result (ost * unit) :=
-  Ok (upd_grad s (if set_to_none then None else grad_zero (o_grad s)), tt).
-Definition inner_step (s : ost) : result (ost * unit) := Ok (emit s (EInner (o_grad s)), tt).
+Definition inner_zero_grad (s : ost) (set_to_none : bool) : sres ost unit :=
+  SOk (upd_grad s (if set_to_none then None else grad_zero (o_grad s))) tt.
+Definition inner_step (s : ost) : sres ost unit := SOk (emit s (EInner (o_grad s))) tt.
 (* everything p.grad holds, as contributions (raw ones carry no clipping norm) *)
 Definition grad_items (v : gradv) : list item := map (fun p => (fst p, snd p, None)) (g_raw v) ++ g_items v.
 (* p.grad.data : AttributeError when p.grad is None *)
-Definition grad_data (s : ost) : result (ost * gradv) :=
-  match o_grad s with Some v => Ok (s, v) | None => Err AttributeError end.
+Definition grad_data (s : ost) : sres ost gradv :=
+  match o_grad s with Some v => SOk s v | None => SErr s AttributeError end.
 (* copy.deepcopy(p.grad.data): a new tensor, no `_processed` attribute *)
 Definition sum_of_grad (v : gradv) : option sumv := Some (mksum (grad_items v) false).
 (* DPOptimizer.grad_samples: one flat per-sample gradient per parameter *)
-Definition grad_samples (s : ost) : result (ost * list (list (Z * Z))) :=
-  bind (gs_flat (o_gs s)) (fun ids => Ok (s, [ids])).
+Definition grad_samples (s : ost) : sres ost (list (list (Z * Z))) :=
+  bindr (gs_flat (o_gs s)) s (fun ids => SOk s [ids]).
 End OS.
 
 Arguments item : clear implicits.
